@@ -105,7 +105,8 @@ fn merge_values(base: &mut Value, overlay: Value) {
             }
         }
         (Value::Array(base_array), Value::Array(overlay_array)) => {
-            let mut seen = HashSet::new();
+            // append without duplicates: skip what the base already has, too
+            let mut seen: HashSet<Value> = base_array.iter().cloned().collect();
             base_array.extend(
                 overlay_array
                     .into_iter()
